@@ -232,6 +232,7 @@ fn crash_sweep(f: &Factory, case: &MCase, a: &[Out], stats: &mut Stats) -> Vec<V
 							match guarded(|| r.next(&case.stream[t])) {
 								Ok(o) => {
 									stats.ticks += 1;
+									stats.checked += 1;
 									if o != a[t] {
 										vs.push(
 											Violation::new("C13", &case.sut, "restored_instance_diverges", t, format!("snapshot after {j} ticks (format {fmt}), restored: tick {t} gives {o:?}, the original gave {:?}", a[t]))
